@@ -87,25 +87,28 @@ theorem matches_iff (r : OfMatch) (p : PHdr) (port : Nat) (hp : PrereqExact r) (
 theorem lookup_spec_wire (fs : List Spec.Flow) (p : PHdr) (port : Nat) (hfs : ∀ f ∈ fs, FlowOk f)
     (hr : regular p = true) (hpt : pktTos p % 4 = 0) :
     Spec.IsBest fs (Spec.headers p port) ((entryForPacket (install fs) p port).map (·.data)) := by
-  have hacc : ∀ f ∈ fs, Entry.accepts (fromPacket p port)
-      ({ priority := f.priority, mtch := f.mtch.ofWire, data := f } : Entry Spec.Flow) = Spec.matchHdr f.mtch (Spec.headers p port) :=
-    fun f hf => matches_iff f.mtch p port (hfs f hf).prereq (hfs f hf).tos hr hpt
-  cases hq : entryForPacket (install fs) p port with
+  have hmem : ∀ e ∈ install fs, e = toEntry e.data ∧ FlowOk e.data := by
+    intro e he
+    obtain ⟨f, hf, rfl⟩ := List.mem_map.mp ((mem_build _ e).mp he)
+    exact ⟨rfl, hfs f hf⟩
+  have h := lookup_isBest (install fs) (table_sorted _) hmem p port hr hpt
+  -- the flows the table holds are exactly `fs` (as a set)
+  have hset : ∀ g, g ∈ (install fs).map (·.data) ↔ g ∈ fs := by
+    intro g
+    constructor
+    · intro hg
+      obtain ⟨e, he, rfl⟩ := List.mem_map.mp hg
+      obtain ⟨f, hf, rfl⟩ := List.mem_map.mp ((mem_build _ e).mp he)
+      exact hf
+    · intro hg
+      exact List.mem_map.mpr ⟨toEntry g, (mem_build _ _).mpr (List.mem_map.mpr ⟨g, hg, rfl⟩), rfl⟩
+  cases hq : (entryForPacket (install fs) p port).map (·.data) with
   | none =>
-    have := (miss_iff _ p port).mp hq
-    simp only [Option.map_none, Spec.IsBest]
-    intro g hg
-    rw [← hacc g hg]
-    exact this _ (List.mem_map.mpr ⟨g, hg, rfl⟩)
-  | some e =>
-    obtain ⟨h1, h2, h3⟩ := lookup_spec _ p port e hq
-    obtain ⟨f, hf, rfl⟩ := List.mem_map.mp h1
-    simp only [Option.map_some, Spec.IsBest]
-    refine ⟨hf, by rw [← hacc f hf]; exact h2, ?_⟩
-    intro g hg hm
-    apply rank_le_iff f g (hfs f hf) (hfs g hg)
-    apply h3 _ (List.mem_map.mpr ⟨g, hg, rfl⟩)
-    rw [hacc g hg]; exact hm
+    rw [hq] at h
+    intro g hg; exact h g ((hset g).mpr hg)
+  | some f =>
+    rw [hq] at h
+    exact ⟨(hset f).mp h.1, h.2.1, fun g hg hm => h.2.2 g ((hset g).mpr hg) hm⟩
 
 /-- a miss ⇔ no installed flow matches the frame per the standard -/
 theorem miss_iff_wire (fs : List Spec.Flow) (p : PHdr) (port : Nat) (hfs : ∀ f ∈ fs, FlowOk f)
@@ -121,6 +124,71 @@ theorem miss_iff_wire (fs : List Spec.Flow) (p : PHdr) (port : Nat) (hfs : ∀ f
     have := h f hf
     rw [← matches_iff f.mtch p port (hfs f hf).prereq (hfs f hf).tos hr hpt] at this
     exact this
+
+/-! ## every history of table operations -/
+open TableOps in
+/-- **Invariant, by induction over the operation list.**  After every sequence of `add_entry` (any priority, any match),
+    `remove_entry`, `remove_matching_entries` (strict or not, any out_port filter) and `remove_expired_entries` (whatever decides
+    expiry), in any order and including calls that raise, the table is sorted by descending effective priority. -/
+theorem history_sorted (ops : List (Op α)) : Sorted (run ops) := run_sorted ops
+
+open TableOps in
+/-- one step of the induction: each operation preserves sortedness from *any* sorted table -/
+theorem step_preserves_sorted (tbl : Table α) (op : Op α) (hs : Sorted tbl) : Sorted (step tbl op).1 := step_sorted tbl op hs
+
+open TableOps in
+/-- where `add_entry` puts the entry: behind everything of higher effective priority, in front of everything of equal or lower —
+    in particular in front of the older entries of the same priority -/
+theorem add_position (tbl : Table α) (e : Entry α) (hs : Sorted tbl) :
+    ∃ l r, tbl = l ++ r ∧ (step tbl (.add e)).1 = l ++ e :: r ∧
+      (∀ x ∈ l, x.effectivePriority > e.effectivePriority) ∧ (∀ x ∈ r, x.effectivePriority ≤ e.effectivePriority) := by
+  rw [step_add]; exact addEntry_position e tbl hs
+
+open TableOps in
+/-- the removing operations delete entries and change nothing else: what is left is a sub-list (same relative order), and the
+    only call that raises is `remove_entry` of an object that is not in the table -/
+theorem removal_sublist (tbl : Table α) (op : Op α) (h : ∀ e, op ≠ .add e) :
+    (step tbl op).1.Sublist tbl ∧ ((step tbl op).2 = true ↔ ∃ i, op = .removeAt i ∧ tbl.length ≤ i) :=
+  ⟨step_sublist tbl op h, step_raises_iff tbl op⟩
+
+open TableOps in
+/-- exact-match entries stand in front of every wildcarded one after every history (16-bit priorities) -/
+theorem history_exact_first (ops : List (Op α)) (hp : ∀ e ∈ added ops, e.priority ≤ 0xffff) (i j : Nat)
+    (hi : i < (run ops).length) (hj : j < (run ops).length)
+    (he : (run ops)[i].mtch.isExact = true) (hw : (run ops)[j].mtch.isWildcarded = true) : i < j := by
+  apply Classical.byContradiction
+  intro hn
+  have hne : i ≠ j := by
+    rintro rfl
+    simp [isExact, hw] at he
+  have hlt : j < i := by omega
+  have hs := List.pairwise_iff_getElem.mp (history_sorted ops) j i hj hi hlt
+  have hpj : (run ops)[j].priority ≤ 0xffff := hp _ (mem_run ops _ (List.getElem_mem hj))
+  have hei : (run ops)[i].mtch.isWildcarded = false := by simpa [isExact] using he
+  simp only [Entry.effectivePriority, hw, hei, if_true, EXACT_PRIORITY] at hs
+  simp at hs
+  omega
+
+open TableOps in
+/-- after every history, `entry_for_packet` returns an accepted entry that no accepted entry of the table outranks, and misses
+    exactly when the table holds no accepted entry -/
+theorem history_lookup (ops : List (Op α)) (p : PHdr) (port : Nat) :
+    (∀ e, entryForPacket (run ops) p port = some e →
+      e ∈ run ops ∧ e.accepts (fromPacket p port) = true ∧
+      ∀ e' ∈ run ops, e'.accepts (fromPacket p port) = true → e'.effectivePriority ≤ e.effectivePriority) ∧
+    (entryForPacket (run ops) p port = none ↔ ∀ e ∈ run ops, e.accepts (fromPacket p port) = false) := by
+  obtain ⟨h1, h2⟩ := first_match_max Entry.effectivePriority (Entry.accepts (fromPacket p port)) (run ops) (history_sorted ops)
+  exact ⟨fun e he => by obtain ⟨a, b, c⟩ := h1 e he; exact ⟨b, a, c⟩, h2⟩
+
+open TableOps in
+/-- **Lookup against the standard after every history.**  Whatever sequence of flow-mod-created entries (regular transmitted
+    flows, `FlowOk`) has been added and whatever has been removed, matched away or expired in between, for every complete frame
+    `entry_for_packet` answers with a flow *currently in the table* that matches per the standard and that no matching flow
+    currently in the table outranks (exact-match flows above every priority) — and with a miss exactly when none matches. -/
+theorem history_lookup_wire (ops : List (Op Spec.Flow)) (hadd : ∀ e ∈ added ops, e = toEntry e.data ∧ FlowOk e.data)
+    (p : PHdr) (port : Nat) (hr : regular p = true) (hpt : pktTos p % 4 = 0) :
+    Spec.IsBest ((run ops).map (·.data)) (Spec.headers p port) ((entryForPacket (run ops) p port).map (·.data)) :=
+  lookup_isBest (run ops) (history_sorted ops) (fun e he => hadd e (mem_run ops e he)) p port hr hpt
 
 /-! ## subsumption (used by the non-strict MODIFY / DELETE of C04) -/
 
@@ -195,6 +263,27 @@ example : ((entryForPacket (install demoFlows) tcpFrame 1).map (·.data.priority
 example : entryForPacket (install demoFlows) (arpFrame 1) 2 = none := by decide
 -- `exact_outranks`: the installed table has an exact entry (position 0) and wildcarded ones behind it, all priorities 16-bit
 example : (install demoFlows).map (·.mtch.isExact) = [true, false, false, false] ∧ ∀ f ∈ demoFlows, f.priority ≤ 0xffff := by decide
+
+-- histories: adds at clustered priorities, a removal by position, a raising removal, a non-strict and a strict
+-- remove-matching, an expiry; the entries satisfy the hypotheses of `history_lookup_wire`; lookups hit and miss
+def demoOps : List (TableOps.Op Spec.Flow) :=
+  [.add (toEntry ⟨100, inPort1⟩), .add (toEntry ⟨100, srcPrefix8⟩), .add (toEntry ⟨1, tcpExact⟩), .removeAt 7,
+   .add (toEntry ⟨0xffff, { srcPrefix8 with wildcards := wc [.dlType] 32 32 }⟩), .removeAt 1,
+   .removeMatching (ofWire { srcPrefix8 with wildcards := wc [.dlType] 32 32 }) 5 true (fun _ => true),
+   .expire (fun e => e.priority == 100 && e.mtch.isWildcarded && e.data.mtch.inPort == 1)]
+example : ∀ e ∈ TableOps.added demoOps, e = toEntry e.data ∧ FlowOk e.data := by
+  intro e he
+  simp only [demoOps, TableOps.added, List.mem_cons, List.not_mem_nil, or_false] at he
+  rcases he with rfl | rfl | rfl | rfl <;>
+    exact ⟨rfl, ⟨by decide, ⟨by decide, by decide⟩, by decide, by decide⟩⟩
+example : (TableOps.run demoOps).map (·.priority) = [1, 100] := by decide
+example : (TableOps.run (demoOps.take 5)).map (·.priority) = [1, 0xffff, 100, 100] := by decide
+example : (TableOps.step (TableOps.run (demoOps.take 3)) (.removeAt 7)).2 = true := by decide
+example : ((entryForPacket (TableOps.run demoOps) tcpFrame 1).map (·.data.priority)) = some 1 := by decide
+example : ((entryForPacket (TableOps.run demoOps) tcpFrame 2).map (·.data.priority)) = some 100 := by decide
+example : entryForPacket (TableOps.run demoOps) (arpFrame 1) 1 = none := by decide
+-- equal priorities: the newer entry goes in front of the older one
+example : (TableOps.run (demoOps.take 2)).map (·.data.mtch.inPort) = [0, 1] := by decide
 
 -- subsumption: both outcomes
 example : (ofWire srcPrefix8).matchesWith true (ofWire tcpExact) = true := by decide
